@@ -154,6 +154,23 @@ def laws():
         xyz = list(C.coord_system.base_scalars())
         return Case([lhs - rhs] + free_of(lhs, [u] + xyz) + free_of(rhs, [u, v] + xyz))
 
+    # the same rectangle given by four independent corner coordinates (no sign information in the symbols themselves: the speed of
+    # the top / left side is sqrt((x0 - x1)**2) = |x0 - x1|, which a "simplification" may turn into the signed x0 - x1)
+    @law("flux_across_curve==flux_across_surface_boundary/green-on-rectangle-given-by-generic-corners", [(m, e) for m, e in M2 if sum(e) <= 2], backend="z3")
+    def _(s, g):
+        C = CS(CS.System.CARTESIAN)
+        fld = field2(g, s[0], s[1], C)
+        # plain symbols WITHOUT the `real` assumption (what a user's symbols("x0 x1") gives): sqrt((x0 - x1)**2) then stays a square
+        # root in SymPy instead of becoming Abs(x0 - x1) at construction, and is only correct if nothing "simplifies" it to x0 - x1
+        # (g.var: the corners stay SYMBOLIC in the replay as well and get their numbers after the real code has run -- with
+        # numeric corners the square root is evaluated and nothing can go wrong)
+        x0, y0, x1, y1 = g.var("x0", real=None), g.var("y0", real=None), g.var("x1", real=None), g.var("y1", real=None)
+        u, v = g.var("u"), g.var("v")
+        lhs = sum(AN.flux_across_curve(fld, seg, (u, 0, 1)) for seg, _ in rect_boundary(x0, x1, y0, y1, u))
+        rhs = AN.flux_across_surface_boundary(fld, [x0 + (x1 - x0) * u, y0 + (y1 - y0) * v], (u, 0, 1), (v, 0, 1))
+        xyz = list(C.coord_system.base_scalars())
+        return Case([lhs - rhs] + free_of(lhs, [u] + xyz) + free_of(rhs, [u, v] + xyz), assume=[sp.Gt(x1, x0), sp.Gt(y1, y0)])
+
     # ------------------------------------------------------------------ regions whose inner limits depend on the outer parameter
     @law("stokes-and-green-on-a-disc-given-by-dependent-limits(inner limits depend on the outer parameter)",
          [(m, e) for m, e in M2 if sum(e) <= 2] + [(0, (0, 1, 1)), (1, (1, 0, 1))])
